@@ -326,6 +326,16 @@ def r09_3(ctx: Ctx) -> None:
         ctx.ob("R09.3", PREP, func, "Prepeptide.to_biopython", name, ok and total_ok,
                "leader, core and tail partition [0, total) of the precursor with shared boundaries "
                "(total = len(location) // 3)", form=f"{name} = [{got[0]}, {got[1]})" if got else "missing")
+    # the parts are residues of the precursor: their boundaries follow from the lengths of the leader, core and tail sequences.
+    # A total taken from the nucleotide location counts the stop codon of the gene the location was copied from.
+    totals = [n for n in walk_local(func) if isinstance(n, ast.Assign) and "len(self.location)" in txt(n.value)]
+    by_sequence = not totals
+    ctx.ob("R09.3", PREP, totals[0] if totals else func, "Prepeptide.to_biopython", "boundaries counted in residues", by_sequence,
+           "the end of the core (and of the tail) is leader + core (+ tail) residues from the start: a boundary computed from the "
+           "nucleotide length of the location is one residue too far when the location includes the gene's stop codon",
+           detail="" if by_sequence else "all four RiPP modules pass the gene's location (stop codon included): gene [0:18) = MAGIC*, leader "
+           "MA, core GIC gives the core location [6:18) = GIC*, and leader MA, core GI, tail C gives core [6:15) = GIC and "
+           "tail [15:18) = *", form=stmt_key(totals[0]) if totals else "")
     # each part gets its own location
     feats = {txt(c.args[0]): c for c in calls(func) if call_name(c) == "SeqFeature" and c.args}
     ok = set(feats) == set(want)
